@@ -31,7 +31,9 @@ def graph_attributes_from_molfile_v3000(
 
 
 def _tokenize_lines(lines: list[str]) -> list[list[str]]:
-    lines = _concat_lines_with_dash(lines)
+    # Only the connection table consists of "M  V30 " lines that may be continued
+    # with a trailing dash; the three header lines and the version line are free text.
+    lines = lines[:4] + _concat_lines_with_dash(lines[4:])
     split_lines = [line.rstrip().split(" ") for line in lines]
 
     return [[value for value in line if value != ""] for line in split_lines]
